@@ -59,6 +59,17 @@ class CVIART(BaseART):
             CVIART.SILHOUETTE,
         ]
 
+    def validate_data(self, X: np.ndarray):
+        """Validate the data prior to clustering.
+
+        Parameters
+        ----------
+        X : np.ndarray
+            The dataset.
+
+        """
+        self.base_module.validate_data(X)
+
     def prepare_data(self, X: np.ndarray) -> np.ndarray:
         """Prepare data for clustering.
 
